@@ -31,6 +31,10 @@ type env struct {
 	sendFailAt    int
 	composeCalls  int
 	sendCalls     int
+	// the context of the call that is running is cancelled by the Sender during its cancelAtSend-th Send
+	// (after the composite was taken): what was delivered was delivered
+	cancelAtSend int
+	cancel       context.CancelFunc
 }
 
 type composeCall struct {
@@ -147,6 +151,9 @@ func (s *recSender) Send(ctx context.Context, t eventlogger.EventType, payload i
 		c.Result = "err"
 	}
 	e.sends = append(e.sends, c)
+	if e.cancelAtSend == e.sendCalls && e.cancel != nil {
+		e.cancel()
+	}
 	e.mu.Unlock()
 	if c.Result == "err" {
 		return eventlogger.Status{}, errSend
@@ -181,6 +188,7 @@ type gconfig struct {
 	ComposeFailAt int
 	GateableAt    int
 	SendFailAt    int
+	CancelAtSend  int  // the Sender cancels the running call's context during its k-th Send
 	DefaultExp    bool // Expiration left unset: the documented default (10 s, the same value the model uses) applies
 }
 
@@ -188,6 +196,9 @@ func (c gconfig) String() string {
 	s := fmt.Sprintf("sender=%v composeFailAt=%d gateableAt=%d sendFailAt=%d", c.Sender, c.ComposeFailAt, c.GateableAt, c.SendFailAt)
 	if c.DefaultExp {
 		s += " expiration=unset"
+	}
+	if c.CancelAtSend > 0 {
+		s += fmt.Sprintf(" cancelAtSend=%d", c.CancelAtSend)
 	}
 	return s
 }
@@ -226,7 +237,7 @@ type session struct {
 }
 
 func newSession(cfg gconfig) *session {
-	e := &env{composeFailAt: cfg.ComposeFailAt, gateableAt: cfg.GateableAt, sendFailAt: cfg.SendFailAt}
+	e := &env{composeFailAt: cfg.ComposeFailAt, gateableAt: cfg.GateableAt, sendFailAt: cfg.SendFailAt, cancelAtSend: cfg.CancelAtSend}
 	f := &gated.Filter{Expiration: expiration * time.Second, NowFunc: e.now}
 	if cfg.DefaultExp {
 		f.Expiration = 0
@@ -244,7 +255,11 @@ func (s *session) do(st gstep) stepResult {
 	c0, s0 := len(e.compose), len(e.sends)
 	e.mu.Unlock()
 	r := stepResult{Step: st, Time: atomic.LoadInt64(&e.clock)}
-	ctx := context.Background()
+	ctx, cancel := context.WithCancel(context.Background())
+	defer cancel()
+	e.mu.Lock()
+	e.cancel = cancel
+	e.mu.Unlock()
 	proc := func(ev *eventlogger.Event) {
 		out, err := s.f.Process(ctx, ev)
 		r.Err = err
